@@ -442,12 +442,7 @@ def numeric_cases(rng, tier, heuristics):
     return out
 
 
-# with a reference model and a non-surrogate heuristic the unchanged code only scores these correctly (see notes/C05.md:
-# max-value-coverage returns values > 1, correlation-Pearson and AMI raise, because the scored column arrives as an (n, 1) block)
-REFERENCE_OK = ["MI", "MI-numba", "MI-numba-3mr", "MI-numba-randomized", "Constant"]
-
-
-def reference_cases(rng, tier):
+def reference_cases(rng, tier, heuristics):
     """--reference_model_JSON {"desc": {"features": [a, b, "a,b"]}} together with non-surrogate heuristics, through
     mixed_rank_graph and compute_batch_ranking (which then also builds the model's interaction feature `a AND b`; its rows
     are judged like any other pair of columns)"""
@@ -461,7 +456,7 @@ def reference_cases(rng, tier):
         a, b = rng.sample(cand, 2)
         ref = [a, b, a + "," + b]
         base = rng.random() < 0.5
-        for k, h in enumerate(REFERENCE_OK):
+        for k, h in enumerate(heuristics):
             for entry in ("mrg", "cbr"):
                 out.append({"names": fr["names"], "cols": fr["cols"], "label": fr["label"], "heuristic": h,
                             "target_only": (base if k % 2 == 0 else not base) if entry == "mrg" else (k % 2 == 1) == base,
@@ -1023,7 +1018,7 @@ def _check(run, replay):
         cases.extend(pool_cases(run.rng, run.tier))
         cases.extend(large_cases(run.rng, run.tier))
         cases.extend(numeric_cases(run.rng, run.tier, heur))
-        cases.extend(reference_cases(run.rng, run.tier))
+        cases.extend(reference_cases(run.rng, run.tier, heur))
         # the coded frame handed to the scorer is observed on one case per frame (in-process pools, <= 2000 rows)
         seen_frames = set()
         for c in cases:
